@@ -128,7 +128,7 @@ GotRes(x, t, reg) ==
        [] Bits(t) = 32 -> <<w[1], w[2]>>
        [] OTHER -> w
 
-CSNames == <<"rbx", "rbp", "r12", "r13", "r14", "r15">>
+CSNames == CalleeSavedSeq
 RetFails(c, s, x) ==
   LET rs == Results(c.res)
       nx87 == Cardinality({j \in 1..Len(c.res) : c.res[j] = "ld"})
@@ -136,10 +136,17 @@ RetFails(c, s, x) ==
         j \in {y \in 1..Len(c.res) : ExpRes(s, y, c.res[y]) # GotRes(x, c.res[y], rs[y].reg)}}
      \cup {F("callee_saved", r - 1, CSNames[r], <<c.cs[r]>>, <<x.cs[r]>>) : r \in {y \in 1..6 : c.cs[y] # x.cs[y]}}
      \cup (IF x.drsp # 0 THEN {F("rsp", 0, "", <<0>>, <<x.drsp>>)} ELSE {})
-     \cup (IF (x.mxcsr \div 64) # (c.mxcsr \div 64) THEN {F("mxcsr_control", 0, "", <<c.mxcsr>>, <<x.mxcsr>>)} ELSE {})
+     \cup (IF MxcsrControl(x.mxcsr) # MxcsrControl(c.mxcsr) THEN {F("mxcsr_control", 0, "", <<c.mxcsr>>, <<x.mxcsr>>)} ELSE {})
      \cup (IF x.cw # c.cw THEN {F("x87_cw", 0, "", <<c.cw>>, <<x.cw>>)} ELSE {})
      \cup (IF x.df # 0 THEN {F("df", 0, "", <<0>>, <<x.df>>)} ELSE {})
      \cup (IF x.x87n # nx87 THEN {F("x87_depth", 0, "", <<nx87>>, <<x.x87n>>)} ELSE {})
+
+(* the itemised register checks above are exactly SysVABI!Preserved *)
+PreservedOK(c, x) ==
+  Preserved([cs |-> c.cs, rsp |-> 0, mxcsr |-> c.mxcsr, cw |-> c.cw], [cs |-> x.cs, rsp |-> x.drsp, mxcsr |-> x.mxcsr, cw |-> x.cw, df |-> x.df, x87n |-> x.x87n],
+            Cardinality({j \in 1..Len(c.res) : c.res[j] = "ld"}))
+RetConsistent(c, s, x) ==
+  PreservedOK(c, x) <=> ({f \in RetFails(c, s, x) : f.k \in {"callee_saved", "rsp", "mxcsr_control", "x87_cw", "df", "x87_depth"}} = {})
 
 (* ------------------------------------------------------------------------------------ trace machine *)
 Nil == [e |-> "none"]
@@ -157,6 +164,7 @@ ObsEv == /\ Tr[i].e = "Obs" /\ cur.e = "Call"
          /\ sum' = Checksum(Tr[i].words \o Tr[i].va)
          /\ UNCHANGED cur
 RetEv == /\ Tr[i].e = "Ret" /\ cur.e = "Call"
+         /\ Assert(RetConsistent(cur, sum, Tr[i]), "itemised checks disagree with SysVABI!Preserved")
          /\ Report(RetFails(cur, sum, Tr[i]))
          /\ UNCHANGED <<cur, sum>>
 
